@@ -88,11 +88,11 @@ func (obj *Mixture) EmStep(mixture1, mixture2 *Mixture, data MixtureDataSet, met
     }
     return nil
   }); err != nil {
-    return math.Inf(-1), nil
+    return math.Inf(-1), err
   }
   // wait for all threads to finish
   if err := p.Wait(g); err != nil {
-    return math.Inf(-1), nil
+    return math.Inf(-1), err
   }
   if tmp[0].logWeights != nil {
     // set weights to zero
